@@ -58,7 +58,7 @@ MODEL = r'''
 // =====================================================================================================================
 // MODEL of the external crates (assumed; listed in the evidence)
 // ---- versionize::VersionMap: `versions: Vec<HashMap<TypeId, u16>>` (version_map.rs of versionize 0.2.0, transcribed)
-#[derive(Clone, Copy, PartialEq, Eq)] pub enum TypeId { VfsState, PseudoFsState, VfsOptionsState }       // std::any::TypeId of the three types (distinct)
+#[derive(Clone, Copy, PartialEq, Eq)] pub enum TypeId { VfsState, PseudoFsState, VfsOptionsState, PseudoInodeState, IdMappingState }       // std::any::TypeId of the versionized types (distinct)
 #[verifier::external_body] pub struct VersionMap { _p: u8 }
 pub mod versionize { pub use super::VersionMap; }
 // get_type_version: the newest entry for `t` among the first `n` root versions, BASE_VERSION = 1 if there is none
@@ -123,7 +123,7 @@ impl Versionize for VfsState {
     type Img = VfsStateImg;
     spec fn ty() -> TypeId { TypeId::VfsState }
     spec fn nver() -> u16 { %(start)du16 }
-    spec fn deps_ok(vs: Seq<Map<TypeId, u16>>, root: u16) -> bool { tv(vs, root, TypeId::VfsOptionsState) == 1 }
+    spec fn deps_ok(vs: Seq<Map<TypeId, u16>>, root: u16) -> bool { tv(vs, root, TypeId::VfsOptionsState) == 1 && tv(vs, root, TypeId::IdMappingState) == 1 }
     spec fn img(&self, v: u16) -> VfsStateImg {
         VfsStateImg { options: self.options, root: self.root@, next_super: self.next_super, maps: if v >= %(start)d { Some(self.mount_id_mappings@) } else { None } }
     }
@@ -211,6 +211,7 @@ impl Vfs {
         VfsStateImg { options: opts_state(self.opts.cur()), root: rb, next_super: self.next_super.cur(),
                       maps: if v >= %(start)d { Some(self.maps().map_values(|m: Option<(u32, u32, u32)>| map_state(m))) } else { None } }
     }
+    spec fn embedded_root(bytes: Seq<u8>) -> Seq<u8> { snap_dec::<VfsState>(bytes)->Some_0.1.root }
     // `rb` = the image of the pseudo tree embedded in the state
     spec fn save_post(&self, bytes: Seq<u8>, rb: Seq<u8>) -> bool { ptree_encodes(rb, self.root.tree()) && bytes == snap_enc::<VfsState>(%(start)du16, self.saved_img(%(start)du16, rb)) }
     // what restore_from_bytes re-establishes from an image (root version, content); `o` is the VFS before
@@ -418,7 +419,7 @@ def unit(root='/repo'):
     save = Fn(MOD, PERSIST_VFS, 'save_to_bytes', props=P, canary=True, ret_name='res', body_resub=[OPTSLOAD],
               gtag_props={'snapver': ['C19']},
               requires=['self.maps().len() == 256'],
-              ensures=['res is Ok ==> exists|rb: Seq<u8>| #[trigger] self.save_post(res->Ok_0@, rb) // [C19.save.image] the image is the latest root version and carries options, pseudo tree, allocation cursor and every per-mount mapping'],
+              ensures=['res is Ok ==> self.save_post(res->Ok_0@, Vfs::embedded_root(res->Ok_0@)) // [C19.save.image] the image is the latest root version and carries options, pseudo tree, allocation cursor and every per-mount mapping'],
               splices=[('while mount_id_mappings_i < mappings.len() {', 'replace', INV_LOOP_SAVE),
                        ('|tp_1|', 'closure', '|tp_1: (u32, u32, u32)| -> (q: IdMappingState)\n                ensures q == (IdMappingState { internal_id: tp_1.0, external_id: tp_1.1, range: tp_1.2 }) // [C19.save.mapping_fields]\n'),
                        ('let vm = Vfs::get_version_map();', 'before', '''proof {
@@ -431,6 +432,8 @@ def unit(root='/repo'):
                 assert(buf@ =~= snap_enc::<VfsState>(%(start)du16, vfs_state.img(%(start)du16))); // [C19.save.image] written at the latest root version, with the latest layout of VfsState
                 assert(vfs_state.img(%(start)du16) == self.saved_img(%(start)du16, vfs_state.root@)); // [C19.save.image]
                 assert(self.save_post(buf@, vfs_state.root@)); // [C19.save.image]
+                axiom_snap_inverse::<VfsState>(%(start)du16, vfs_state.img(%(start)du16));
+                assert(Vfs::embedded_root(buf@) == vfs_state.root@);
             }''' % d)])
     save.rules = ('R33',)
     restore = Fn(MOD, PERSIST_VFS, 'restore_from_bytes', props=P, canary=True, ret_name='res', sig_subst=R25,
@@ -459,7 +462,7 @@ def unit(root='/repo'):
            ensures=['r@.len() == %d // [C19.version_map.latest] root versions 1..%d' % (start, start),
                     'tv(r@, 1, TypeId::VfsState) == 1 // [C19.version_map.v1] a root version 1 image is read with the version 1 layout of VfsState (no per-mount mappings in it)',
                     'forall|root: u16| %d <= root ==> tv(r@, root, TypeId::VfsState) == %d // [C19.version_map.latest_layout]' % (start, start),
-                    'forall|root: u16| tv(r@, root, TypeId::VfsOptionsState) == 1 && tv(r@, root, TypeId::PseudoFsState) == 1 // [C19.version_map.nested]'],
+                    'forall|root: u16| tv(r@, root, TypeId::VfsOptionsState) == 1 && tv(r@, root, TypeId::IdMappingState) == 1 // [C19.version_map.nested] the nested types have one layout only'],
            splices=[('^', 'after', 'proof { reveal_with_fuel(tv_rec, 4); }')]),
         save, restore,
         Fn(MOD, 'impl Vfs', 'restore_mount', props=P, canary=True, ret_name='res', sig_subst=R25,
